@@ -717,6 +717,84 @@ def history_checks(ctx, rng):
                            key="history:adaptive-on:potential-" + tag)
 
 
+NONANALYTIC_KEY = "table-spline-nonanalytic-points"
+# generic accuracy of the shipped tables in the smooth region (scan of every cell, x 1.7)
+GEN_TOL_V, GEN_TOL_D1, GEN_TOL_D2 = 1.7 * 7e-8, 1.7 * 4.3e-6, 2e-3
+
+
+def judge_table_point(ctx, tag, kind, T, xs, vs, x, margin, first=True):
+    """Value, first and second derivative of a table-backed object at x against the defining
+    integral (central differences of the reference, h = 1e-3), judged with the GENERIC tolerance of
+    the smooth region everywhere.  A point that fails is attributed to the known finding
+    table-spline-nonanalytic-points only by its class rule: table-backed evaluation with |x| < 1
+    (x^{3/2} non-analyticity at 0, either table) or |x + pi^2| < 1 (Jf), and errors below
+        |x| < 0.25 or |x + pi^2| < 1 : 2e-3 (value), 0.12 (first derivative)
+        0.25 <= |x| < 1              : 1e-4 (value), 5e-3 (first derivative), 0.15 (second)
+    relative to max(1, |exact|).  Anything else is an ordinary failing input (key spline:<tag>).
+    Errors of the nodes themselves below the kink thresholds (reported by (iii) under
+    quad-unresolved-kink) may propagate the way a cubic spline propagates them."""
+    h = 1e-3
+    grid = float(xs[1] - xs[0])
+    near0 = abs(x) < 0.25
+    mid0 = 0.25 <= abs(x) < 1.0
+    nearpi = tag == "Jf" and abs(x + math.pi ** 2) < 1.0
+    in_zone = near0 or mid0 or nearpi
+    bound_v, bound_d, bound_2 = (2e-3, 0.12, None) if (near0 or nearpi) else (1e-4, 5e-3, 0.15)
+    i0 = int(np.searchsorted(xs, x))
+    nerr = 0.0
+    if x < KINK[kind] + 15 * grid:
+        for j in range(max(0, i0 - 14), min(len(xs), i0 + 14)):
+            if xs[j] >= KINK[kind]:
+                continue
+            w = ref_J(kind, float(xs[j]))
+            e = max(abs(float(vs[j, 0]) - w[0]), abs(float(vs[j, 1]) - w[1]))
+            nerr = max(nerr, e * 0.3 ** max(0.0, abs(x - xs[j]) / grid - 1.0))
+    av, ad, a2 = 2 * nerr, 3 * nerr / grid, 12 * nerr / grid ** 2     # inherited node errors
+    want = ref_J(kind, x)
+    with warnings.catch_warnings():
+        warnings.simplefilter("ignore")
+        got = [float(v) for v in np.asarray(T(x), dtype=float).ravel()]
+        dgot = [float(v) for v in np.asarray(T.derivative(x, 1, True), dtype=float).ravel()]
+        d2got = [float(v) for v in np.asarray(T.derivative(x, 2, True), dtype=float).ravel()]
+    wp, wm = ref_J(kind, x + h), ref_J(kind, x - h)
+    dwant = [(wp[0] - wm[0]) / (2 * h), (wp[1] - wm[1]) / (2 * h)]
+    d2want = [(wp[0] - 2 * want[0] + wm[0]) / h ** 2, (wp[1] - 2 * want[1] + wm[1]) / h ** 2]
+    # the second derivative of J diverges at the two non-analytic points: judged only away from
+    # them (|x| >= 0.25 and not within 1 of -pi^2)
+    judge2 = not (near0 or nearpi)
+    if x == 0.0:
+        dwant[1] = d2want[1] = 0.0       # the imaginary part starts at 0 (one-sided)
+    ctx.count("spline_point_" + tag, bucket="|x|<0.25" if near0 else "0.25<=|x|<1" if mid0 else
+              "|x+pi^2|<1" if nearpi else "x<0" if x < 0 else "x>0")
+    ok = True
+    for part in (0, 1):
+        ev = abs(got[part] - want[part]) / max(1.0, abs(want[part]))
+        ed = abs(dgot[part] - dwant[part]) / max(1.0, abs(dwant[part]))
+        e2 = abs(d2got[part] - d2want[part]) / max(1.0, abs(d2want[part])) if judge2 else 0.0
+        rv, rd, r2 = ev / (GEN_TOL_V + av), ed / (GEN_TOL_D1 + ad), e2 / (GEN_TOL_D2 + a2)
+        if not in_zone:
+            margin["spline generic"] = max(margin.get("spline generic", 0.0), rv, rd, r2)
+        if max(rv, rd, r2) <= 1.0:
+            continue
+        ok = False
+        key = "spline:%s" % tag
+        if in_zone:
+            cv, cd = ev / (bound_v + av), ed / (bound_d + ad)
+            c2 = 0.0 if (bound_2 is None or not judge2) else e2 / (bound_2 + a2)
+            margin["spline class rule"] = max(margin.get("spline class rule", 0.0), cv, cd, c2)
+            if max(cv, cd, c2) <= 1.0:
+                key = NONANALYTIC_KEY
+        ctx.fail_input(
+            "default %s table at x = %r (%s part): value %r vs integral %r, derivative %r vs %r, "
+            "second derivative %r vs %r (relative errors %.3g, %.3g, %.3g)" % (
+                tag, x, "real" if part == 0 else "imag", got[part], want[part], dgot[part],
+                dwant[part], d2got[part], d2want[part], ev, ed, e2),
+            dict(kind="spline", cls=tag, x=x, part=part, got=float(got[part]),
+                 want=want[part], dgot=float(dgot[part]), dwant=dwant[part],
+                 d2got=float(d2got[part]), d2want=d2want[part]), key=key)
+    return ok
+
+
 def direct(ctx, rng, D):
     from WallGo.PotentialTools import JbIntegral, JfIntegral, Integrals, EImaginaryOption
     history_checks(ctx, rng)
@@ -735,6 +813,10 @@ def direct(ctx, rng, D):
             ctx.count("known_finding_replay")
             classify_integral(ctx, tag, kind, obj, x, impl_J(obj, x), ref_J(kind, x), 1e-7,
                               "direct")
+    # ... and the recorded input of table-spline-nonanalytic-points: dJb/dx at x = 0 on the table
+    margin = {}
+    judge_table_point(ctx, "Jb", "b", D.Jb, np.asarray(D.Jb._interpolationPoints, dtype=float),
+                      vs_all["Jb"], 0.0, margin)
     # (i) integrands pointwise
     check_integrands_direct(ctx, rng, ctx.n(400, 4000))
     # (ii) direct integrals vs the defining integral.  Negative arguments: half of them log-uniform
@@ -838,7 +920,6 @@ def direct(ctx, rng, D):
                          direct=cur), key="table-row:%s" % tag)
     # (iv) spline: value, first and second derivative (central differences of the reference) at
     #      nodes, midpoints and off-centre points
-    margin = {}
     for tag, (kind, obj) in objs.items():
         T = tabs[tag]
         xs = np.asarray(T._interpolationPoints, dtype=float)
@@ -869,79 +950,8 @@ def direct(ctx, rng, D):
         for i in cells:
             for fr in (0.0, rng.choice([0.1, 0.25, 0.9]), 0.5):
                 cand.append(float(xs[i] + fr * (xs[i + 1] - xs[i])))
-        h = 1e-3
         for x in cand:
-            x = float(x)
-            # ACCURACY LIMITS OF THE SHIPPED TABLES (measured by a scan of every cell with x < 102
-            # at 5 positions, unchanged files; tolerance = ~1.7 x the maximum):  a cubic spline
-            # cannot follow the x^{3/2} non-analyticity at 0 nor the one of Jf at -pi^2
-            #   |x| < 0.25        value 1.0e-3   derivative 7.1e-2 (at x = 0: 0.7514 vs pi^2/12)
-            #   0.25 <= |x| < 1   value 2.8e-5   derivative 1.6e-3   2nd derivative 5e-2
-            #   |x + pi^2| < 1    value 1.0e-3   derivative 3.2e-2                     (Jf only)
-            #   elsewhere         value 7e-8     derivative 4.3e-6   2nd derivative 4e-4
-            near0 = abs(x) < 0.25
-            mid0 = 0.25 <= abs(x) < 1.0
-            nearpi = tag == "Jf" and abs(x + math.pi ** 2) < 1.0
-            tolv = 2e-3 if near0 else 1e-4 if mid0 else 6e-3 if nearpi else 1e-6
-            told = 0.12 if near0 else 5e-3 if mid0 else 8e-2 if nearpi else 2e-5
-            told2 = None if (near0 or nearpi) else 0.15 if mid0 else 2e-3
-            # this check is about the INTERPOLATION: errors of the nodes themselves (reported by
-            # (iii)) are allowed to propagate the way a cubic spline propagates them: a node
-            # error e at distance k nodes moves the value by <= ~e (2 - sqrt 3)^k and the
-            # derivative by <= ~3 e (2 - sqrt 3)^k / grid step
-            i0 = int(np.searchsorted(xs, x))
-            nerr = 0.0
-            if x < KINK[kind] + 15 * grid:
-                for j in range(max(0, i0 - 14), min(len(xs), i0 + 14)):
-                    if xs[j] >= KINK[kind]:
-                        continue
-                    w = ref_J(kind, float(xs[j]))
-                    e = max(abs(float(vs_all[tag][j, 0]) - w[0]),
-                            abs(float(vs_all[tag][j, 1]) - w[1]))
-                    nerr = max(nerr, e * 0.3 ** max(0.0, abs(x - xs[j]) / grid - 1.0))
-            tolv += 2 * nerr
-            told += 3 * nerr / grid
-            if told2 is not None:
-                told2 += 12 * nerr / grid ** 2
-            want = ref_J(kind, x)
-            with warnings.catch_warnings():
-                warnings.simplefilter("ignore")
-                got = [float(v) for v in np.asarray(T(x), dtype=float).ravel()]
-                dgot = [float(v) for v in np.asarray(T.derivative(x, 1, True),
-                                                     dtype=float).ravel()]
-                d2got = [float(v) for v in np.asarray(T.derivative(x, 2, True),
-                                                      dtype=float).ravel()]
-            wp, wm = ref_J(kind, x + h), ref_J(kind, x - h)
-            dwant = [(wp[0] - wm[0]) / (2 * h), (wp[1] - wm[1]) / (2 * h)]
-            d2want = [(wp[0] - 2 * want[0] + wm[0]) / h ** 2,
-                      (wp[1] - 2 * want[1] + wm[1]) / h ** 2]
-            if x == 0.0:
-                # one-sided at the branch point: the imaginary part starts there
-                dwant[1] = d2want[1] = 0.0
-                told2 = None
-            ctx.count("spline_point_" + tag, bucket="|x|<0.25" if near0 else
-                      "0.25<=|x|<1" if mid0 else "x<0" if x < 0 else "x>0")
-            for part in (0, 1):
-                rv = abs(got[part] - want[part]) / (tolv * max(1.0, abs(want[part])))
-                rd = abs(dgot[part] - dwant[part]) / (told * max(1.0, abs(dwant[part])))
-                r2 = 0.0 if told2 is None else \
-                    abs(d2got[part] - d2want[part]) / (told2 * max(1.0, abs(d2want[part])))
-                margin["spline " + ("near 0" if near0 or mid0 else "near -pi^2" if nearpi
-                                    else "generic")] = max(
-                    margin.get("spline " + ("near 0" if near0 or mid0 else "near -pi^2"
-                                            if nearpi else "generic"), 0.0), rv, rd, r2)
-                if max(rv, rd, r2) <= 1.0:
-                    continue
-                ctx.fail_input(
-                    "default %s table at x = %r (%s part): value %r vs integral %r, derivative "
-                    "%r vs %r, second derivative %r vs %r (error / tolerance %.2f, %.2f, %.2f)" % (
-                        tag, x, "real" if part == 0 else "imag", got[part], want[part],
-                        dgot[part], dwant[part], d2got[part], d2want[part], rv, rd, r2),
-                    dict(kind="spline", cls=tag, x=x, part=part, got=float(got[part]),
-                         want=want[part], dgot=float(dgot[part]), dwant=dwant[part],
-                         d2got=float(d2got[part]), d2want=d2want[part]),
-                    key="spline:%s" % tag)
-                break
+            judge_table_point(ctx, tag, kind, T, xs, vs_all[tag], float(x), margin)
     ctx.cov["margins"] = {k: round(v, 3) for k, v in margin.items()}
     # (v) one-loop thermal potential on the real integrals: Stefan-Boltzmann, heavy-mass
     #     suppression, continuity in the masses
@@ -963,14 +973,19 @@ def direct(ctx, rng, D):
                 nb, nf, T, got, want), dict(kind="sb", dofb=dofb, doff=doff, T=T, got=got,
                                             want=want),
                 key="stefan-boltzmann")
-        # the shipped tables at x = 0 sit on the x^{3/2} non-analyticity: 2e-4 relative
+        # the same on the shipped tables: judged with the generic table accuracy; the table value
+        # at x = 0 sits on the x^{3/2} non-analyticity (class rule of the known finding: all
+        # arguments 0, i.e. |x| < 0.25, error per degree of freedom below 2e-3 in units of J)
         gott = float(table_pot.potentialOneLoopThermal(bos, fer, T))
-        if abs(gott - want) > 5e-4 * abs(want) + 1e-300:
+        unit = T ** 4 / (2 * math.pi ** 2) * max(nb + nf, 1e-300)
+        if abs(gott - want) > GEN_TOL_V * unit and nb + nf > 0:
             ctx.fail_input("massless content nb=%d nf=%d T=%r on the shipped tables: V = %r, "
-                           "Stefan-Boltzmann %r" % (nb, nf, T, gott, want),
+                           "Stefan-Boltzmann %r (%.3g J per degree of freedom)" % (
+                               nb, nf, T, gott, want, abs(gott - want) / unit),
                            dict(kind="sb_table", dofb=dofb, doff=doff, T=T, got=gott,
                                 want=want),
-                           key="stefan-boltzmann-table")
+                           key=NONANALYTIC_KEY if abs(gott - want) <= 2e-3 * unit
+                           else "stefan-boltzmann-table")
     # generic spectra under every imaginary-part option: V = T^4/(2 pi^2) sum n Re J(m^2/T^2) with
     # J from the independent quadrature; ABS_ARGUMENT means J(|m^2|/T^2), ABS_RESULT |V| when a
     # mass is negative, ERROR must raise exactly then
